@@ -1044,6 +1044,12 @@ func (r *Runner) strmAdd(res *strmResult, tag string) {
 func (r *Runner) strmBatch(cmds []string, tag string, procs int) {
 	const perChild = 40
 	for len(cmds) > 0 {
+		// enough evidence: a tree on which run after run hangs or stalls (each costs its time limit, and
+		// its confirmation runs) is not explored to the end
+		if len(r.res.Failures)+r.res.truncFailures >= 12 {
+			r.res.Notes = append(r.res.Notes, fmt.Sprintf("%d runs not executed after 12 failures", len(cmds)))
+			return
+		}
 		k := perChild
 		if k > len(cmds) {
 			k = len(cmds)
@@ -1051,6 +1057,9 @@ func (r *Runner) strmBatch(cmds []string, tag string, procs int) {
 		chunk := cmds[:k]
 		cmds = cmds[k:]
 		for len(chunk) > 0 {
+			if len(r.res.Failures)+r.res.truncFailures >= 12 {
+				break
+			}
 			results, ok := strmChild(chunk, procs, strmStall)
 			done := 0
 			for _, res := range results {
